@@ -10,9 +10,9 @@ from vlib.verdict import Case
 
 PROPERTY = 'C15'
 MANIFEST = {
- 'level_text': 'Lean 4 theorems, kernel-checked, about a model of the configuration registry: the unicode_escape codec round trip and repr/literal round trip for every string; String (and its space-padding variants), Boolean and the Integer family reload to the saved value through the real line format and reader for every accepted value; list values reload element-wise under an explicit separator-freeness predicate (with proved counter-examples outside it); a rejected text leaves the whole value tree unchanged; a channel/network assignment changes getSpecific only for that channel/network and unset specific values follow the general value, for every history of set/setValue/reset/get; name escape/split/join round trip for components not ending in a backslash. Constants (printable table, quote set, regexps, toBool tables, separators, class inventory) are regenerated from /repo on every run; the model is tied to src/registry.py by a differential run over generated values, files, name lists and operation histories that also evaluates the property statement on the implementation.',
- 'level_note': 'Trusted: Lean kernel (axioms propext/Classical.choice/Quot.sound only); harness/extractors/registry.py; the correspondence harness (generator quality bounds what it sees). Parameters: str.isprintable for non-ASCII characters (instantiated with the real predicate per case); textwrap word splitting (chunks taken from the real TextWrapper). Modelled: unicode_escape encoder/decoder, repr(str), safeEval on a single plain string literal, String/StringSurroundedBySpaces/StringWithSpaceOnRight/NormalizedString set/setValue/__str__/serialize, Boolean, Integer/NonNegative/Positive, Space/Comma separated lists of strings, close() line format, open_registry, escape/unescape/split/join, value tree (_wasSet, _setValue(inherited), _makeChild, getSpecific, Config reset, getValues, registerChannelValue/registerNetworkValue start-up). Not modelled in Lean (exercised against the property oracle only): Float family, Regexp, Json, TemplatedString, OnlySomeStrings, conf.* validators, lazy in-process re-reading after a second open_registry, \\N{name} escapes, lone surrogates, texts handed to safeEval that are not one plain literal.',
- 'technique': 'Lean 4 proof (induction over strings / histories, invariants) + table extraction + differential correspondence',
+ 'level_text': 'Lean 4 theorems, kernel-checked, about a model of the configuration registry, for all inputs: decoder(encoder(s)) = s and safeEval(repr(s)) = s for every string; String, StringSurroundedBySpaces and StringWithSpaceOnRight reload to the stored value for every string (after the _needsQuoting fix); Boolean and the Integer family reload to the saved value; space/comma separated lists reload under an explicit separator-freeness predicate, with proved counter-examples outside it (known findings); whatever registry.close writes for reader-safe names — header, help blocks, the "# Default value" line, one line per value — open_registry reads back with exactly the saved texts (file_always_loads), for any number of values; a rejected set/setValue at any level of the value tree leaves every existing value and _wasSet flag unchanged; an accepted assignment changes what getSpecific answers only for probes of that network/channel; unset specific values answer the new general value; Config reset network/channel give the inherited value; unescape(escape(n)) = n for every name and split(join(ns)) = ns when no inner component ends in a backslash (counter-example proved otherwise). Constants (printable table, quote set, regexps, toBool tables, separators, header, class inventory) are regenerated from /repo on every run and guarded by table lemmas; the model is tied to src/registry.py, conf.py and the Config plugin by a differential run (values, texts, hostile files, whole files, name lists, histories on a real tree, histories through the live Config plugin) that also evaluates the property statement on the implementation.',
+ 'level_note': 'Trusted: Lean kernel (axioms propext/Classical.choice/Quot.sound only); harness/extractors/registry.py; the correspondence harness (generator quality bounds what it sees). Parameters of the model: str.isprintable on non-ASCII characters (theorems hold for every such predicate; instantiated with the real one per case); textwrap word splitting and help wrapping (chunks/lines taken from the real TextWrapper). Modelled: unicode_escape encoder/decoder, repr(str), safeEval on a single plain string literal, String family set/setValue/__str__/serialize incl. NormalizedString line wrapping, Boolean, Integer/NonNegative/Positive, Space/Comma separated lists, close() file layout, open_registry, escape/unescape/split/join, value tree (_wasSet, _setValue(inherited), _makeChild incl. cache lookup, getSpecific, Config set/reset paths, getValues order, registerChannelValue/registerNetworkValue start-up). Proved only for the per-step semantics of the tree (any state, any step), not as one end-to-end theorem boot(read(save(tree))) = tree; NormalizedString has no round-trip theorem (known finding C15-normalized-wrap). Not modelled in Lean (exercised against the property oracle only): Float family, Regexp, Json, TemplatedString, OnlySomeStrings, conf.* validators; lazy in-process re-reading after a second open_registry; \\N{name} escapes, lone surrogates, texts handed to safeEval that are not one plain literal, int() of non-ASCII digits.',
+ 'technique': 'Lean 4 proof (induction over strings / lists / tree states, invariants) + table extraction + differential correspondence',
  'design_ref': 'DESIGN.md §6 C15',
 }
 THEOREMS = ['C15.quotes_table_ok', 'C15.bool_table_ok', 'C15.lists_table_ok', 'C15.header_table_ok',
